@@ -3,10 +3,10 @@ package metric
 import (
 	"time"
 
+	flatbuffers "github.com/google/flatbuffers/go"
 	"github.com/lindb/common/pkg/fasttime"
 	"github.com/lindb/common/proto/gen/v1/flatMetricsV1"
 	protoMetricsV1 "github.com/lindb/common/proto/gen/v1/linmetrics"
-	flatbuffers "github.com/google/flatbuffers/go"
 
 	"github.com/lindb/lindb/pkg/timeutil"
 	"github.com/lindb/lindb/series/tag"
